@@ -712,6 +712,26 @@ def _deep_child(_job):
     for w in ("S", "NS"):
         if look(c, eval(w, ns)) is not r:
             bad.append([w, f"ctx[ForwardRef('K', module)] = r; ctx[{w}] is not r"])
+    # a string-valued alias whose text names a class that does not exist (yet) at the time of the lookup -- a forward declaration, or
+    # the name of a function-local class: the key is still a key (absent: KeyError / default; found under the reference in its value)
+    exec("Fwd = typing.TypeAliasType('Fwd', 'Later')\nNFwd = typing.NewType('NFwd', Fwd)\nLoc = typing.TypeAliasType('Loc', 'Local')\n"
+         "AFwd = typing.TypeAliasType('AFwd', Fwd)\n"
+         "def make_local():\n    @dataclasses.dataclass\n    class Local:\n        x: int = 0\n    return Local\nLocalCls = make_local()\n", ns)
+    for w, text in (("Fwd", "Later"), ("NFwd", "Later"), ("AFwd", "Later"), ("typing.Final[Fwd]", "Later"), ("Loc", "Local")):
+        W = eval(w, ns)
+        c = tctx.TypeContext()
+        if look(c, W) is not KeyError or get(c, W, d) is not d:
+            bad.append([w, f"absent key {w} (a string-valued alias of the not yet defined {text!r}): subscription gives {look(c, W)!r}, "
+                           f"get gives {'the default' if get(c, W, d) is d else get(c, W, d)!r}; expected KeyError and the default"])
+        c[typing.ForwardRef(text, module="c16_deep", is_class=True)] = r
+        if look(c, W) is not r or get(c, W, d) is not r:
+            bad.append([w, f"ctx[ForwardRef({text!r}, module)] = r; ctx[{w}] gives {look(c, W)!r}, not r"])
+    c = tctx.TypeContext()
+    c[typing.ForwardRef("Later", module="c16_deep", is_class=True)] = r
+    before = look(c, ns["Fwd"])
+    exec("@dataclasses.dataclass\nclass Later:\n    x: int = 0\n", ns)      # the class comes into existence between two lookups
+    if before is not r or look(c, ns["Fwd"]) is not r or look(c, ns["NFwd"]) is not r:
+        bad.append(["Fwd", "ctx[ForwardRef('Later', module)] = r; ctx[Fwd] must be r before and after the class Later is defined"])
     return bad
 
 
